@@ -30,7 +30,7 @@ def run_stack(res, tier, binp):
         cfgp = os.path.join(common.OUT, "MC_OsuStacking_%s_%s_%d.cfg" % (name, tier, pid))
         with open(cfgp, "w") as f:
             f.write("CONSTANTS\n  MaxLen = %d\n  Gaps = %s\n  CirclePos = %s\n  Sliders <- %s\n  SpinPos = %s\n  Thr = %d\n"
-                    "INIT Init\nNEXT Next\nINVARIANT BoundedOk\nINVARIANT SpinnersOk\nINVARIANT Printer\nCHECK_DEADLOCK FALSE\n" % (maxlen, gaps, cpos, sliders, spos, thr))
+                    "INIT Init\nNEXT Next\nINVARIANT BoundedOk\nINVARIANT Printer\nCHECK_DEADLOCK FALSE\n" % (maxlen, gaps, cpos, sliders, spos, thr))
         r = common.run_tlc("MC_OsuStacking", cfgp, workers=4 if tier == "quick" else 12, timeout=7200, name="MC_OsuStacking_%s_%s" % (name, tier))
         res.add_tlc(r)
         os.remove(cfgp)
